@@ -414,6 +414,19 @@ CLAIMED["C19"]["text"] += (
     "script of every container (SD2 with its resource fork) under three allocator fills of fresh heap memory -- transcripts and closed bytes must not follow the fill (vlib/heapcamp.py); Sf.HeaderBuf + C19Heap "
     "(emit_independent_of_heap, gap_is_zero, no_clearing_rule_leaks_heap).")
 
+CLAIMED["C01"]["text"] += (
+    " Round 5 (ALAC codec core): the ALAC core is modelled bit-exactly in Lean (lean/SfModel/AlacBits, AlacCore, AlacAg, AlacDp, AlacMatrix, AlacDec, AlacEnc, AlacCodec). Proved: "
+    "alac_escape_roundtrip - decode (encode x) = x (low 32 - depth bits cleared) for every depth, 1-8 channels, 1-4096 frames and all int32 samples on the uncompressed path; the four round-4 repairs each as an escape_old_rule_* theorem; "
+    "dyn_decomp o dyn_comp = id (adaptive Golomb coder, every residual list), unpc_block o pc_block = id (orders 0-30, coefficient adaptation, wrap-around), unmix o mix = id; "
+    "alac_lossless (lean/SfProps/C01AlacLosslessAll.lean) - the REAL encoder with its searches (predictor order, mixing ratio), the coefficient state it carries from packet to packet and its escape fallbacks is inverted by the "
+    "decoder for every depth, 1-8 channels, every state and every packet of 1-4096 frames of int32 samples (alac_lossless_stream: whole streams; alac_lossless_exact: in-range samples bit exact). "
+    "The model (encoder, decoder, whole closed file) is tied to the library bit for bit by vlib/alaccore.py (streams dec / enc / encx / file / hostile).")
+CLAIMED["C03"]["text"] += (
+    " Round 5: alac_decode_in_bounds (lean/SfProps/C03Alac.lean) proves that every store of the ALAC decoder into the sample buffer is in range for EVERY packet, stale buffer content, kuki configuration and frame count up to 4096; "
+    "dyn_decomp / unpc_block sizes and the termination bound of the element loop are proved; hostile packets run under ASan against the Lean decoder (vlib/alaccore.py). Not proved: a bound on how far the bit reader runs past "
+    "the packet end (the C code checks `cur < end` only between elements; observed safe, the slack behind the 1 MiB byte buffer is what makes it so).")
+
+
 def main():
     checks = []
     for p in PROPS:
